@@ -526,12 +526,16 @@ pub fn run(args: &Args, rep: &mut Report) {
         collide: true,
     };
     rep.set_meta("bounds", json!(format!(
-        "BFS depth {depth} from 3 initial states (depth {depth2} for the tree/data id-collision scenario); {} prune option vectors; <=5 backups; forget = every non-empty subset of <=3 live snapshots; stale handles <=2 states old; check --read-data on every distinct state",
+        "BFS depth {depth} from 3 initial states (depth {depth2} for the tree/data id-collision scenario; the first scenario is run a second time with prune's small-index threshold lowered to 1); {} prune option vectors; <=5 backups; forget = every non-empty subset of <=3 live snapshots; stale handles <=2 states old; check --read-data on every distinct state",
         m.n_prune)));
     rep.set_meta("assumptions", json!(["stale (concurrent) handles are only used within the keep-delete proviso; their snapshots are exempt from the read oracle until the next prune (C10 covers the interleavings)"]));
     if let Some(p) = &args.replay {
         let v: serde_json::Value = serde_json::from_str(&std::fs::read_to_string(p).expect("replay file")).expect("json");
-        if v["case"]["scenario"].as_str() == Some("collide") {
+        if v["case"]["scenario"].as_str() == Some("large-index-files") {
+            rustic_core::verif::limits::set_min_index_len(1);
+            vkit::seq::replay(&m, &v["case"], rep);
+            rustic_core::verif::limits::set_min_index_len(0);
+        } else if v["case"]["scenario"].as_str() == Some("collide") {
             vkit::seq::replay(&m2, &v["case"], rep);
         } else {
             vkit::seq::replay(&m, &v["case"], rep);
@@ -544,5 +548,32 @@ pub fn run(args: &Args, rep: &mut Report) {
     for v in rep.violations.iter_mut().skip(before) {
         v.case["scenario"] = json!("collide");
         v.signature = format!("{}[id-collision]", v.signature);
+    }
+    // third scenario: the first one with index files that count as large (prune rebuilds an index
+    // file of fewer than 10 000 blobs merely because it is small; with the threshold at 1 only
+    // index files which really change are rewritten, as in a repository of realistic size)
+    let before = rep.violations.len();
+    rustic_core::verif::limits::set_min_index_len(1);
+    let mut rep3 = Report::new(args);
+    bfs(&m, depth, if quick { 4000 } else { 200_000 }, args, &mut rep3);
+    rustic_core::verif::limits::set_min_index_len(0);
+    rep.count("large_index_executions", rep3.get("executions"));
+    for (k, v) in &rep3.counts {
+        if k.starts_with("todo:") {
+            rep.count(&format!("large_index_{k}"), *v);
+        }
+    }
+    for c in rep3.caps_hit.drain(..) {
+        rep.cap(c);
+    }
+    for m in rep3.machinery_errors.drain(..) {
+        rep.machinery(m);
+    }
+    for v in rep3.violations.drain(..) {
+        rep.violations.push(v);
+    }
+    for v in rep.violations.iter_mut().skip(before) {
+        v.case["scenario"] = json!("large-index-files");
+        v.signature = format!("{}[large-index-files]", v.signature);
     }
 }
